@@ -18,6 +18,15 @@ RULE = ("the full product {std::vector, list, deque, map, std::array, built-in a
 
 def run(tier, replay=None):
     run_ = verdict.Run(PROP, tier, LEVEL, replay_of=replay)
+    if replay:
+        import collections
+        import json
+        import mtindep
+        with open(replay) as fh:
+            rcase = json.load(fh).get("case")
+        if isinstance(rcase, dict) and rcase.get("phase") == "concurrent-independent-use":
+            mtindep.replay(run_, rcase, collections.Counter())
+            return run_.finish(10, 1, RULE)
     import shutil
     tags = ["gasan", "casan"]
     if shutil.which("valgrind"):
@@ -63,6 +72,12 @@ def run(tier, replay=None):
             run_.sample({"example": "for (auto&& e : enumerate(c)) on std::map<int,int> of length 3: indices 0,1,2; "
                                     "&e.value().second equals the address of the mapped element; assigning through "
                                     "e.value() is read back from the map afterwards"})
+    if not replay:
+        import collections
+        import mtindep
+        conc = collections.Counter()
+        mtindep.phase(run_, "iter", tier, conc)     # adaptors over thread-private ranges from 2-16 threads at once
+        total.update(conc)
     run_.coverage["counters"] = total
     run_.coverage["builds"] = tags
     if not replay and total.get("temporaries-iterated", 0) == 0:
